@@ -5,8 +5,10 @@ Local Open Scope Z_scope.
 Ltac Zify.zify_post_hook ::= Z.div_mod_to_equations.
 
 (* ---- sbdf_calculate_array_capacity ---- *)
-Definition cap_st (size c : Z) : state :=
-  {| vars := [("size"%string, VInt size); ("cap"%string, VInt c); (budget_var, VInt 0)]; inb := []; outb := [] |}.
+(* the frame: the function's two variables, then whatever pseudo-variables the caller's kind of call carries (tl);
+   the function touches neither them nor the memory *)
+Definition cap_st (tl : list (string * val)) (m o : list Z) (size c : Z) : state :=
+  {| vars := ("size"%string, VInt size) :: ("cap"%string, VInt c) :: tl; inb := m; outb := o |}.
 
 Definition cap_step (c : Z) : Z := 1 + c * 3 / 2.
 
@@ -24,8 +26,8 @@ Proof.
   rewrite G. assert (E : 715827882 <= cap_iter 64 0) by (vm_compute; discriminate). lia.
 Qed.
 
-Lemma cap_loop_prog f : forall c size, 0 <= c -> size <= 715827882 -> size <= cap_loop f c size ->
-  bsE prog_env (loop2 (fbody prog_sbdf_calculate_array_capacity)) (cap_st size c) (ONormal (cap_st size (cap_loop f c size))).
+Lemma cap_loop_prog tl m o f : forall c size, 0 <= c -> size <= 715827882 -> size <= cap_loop f c size ->
+  bsE prog_env (loop2 (fbody prog_sbdf_calculate_array_capacity)) (cap_st tl m o size c) (ONormal (cap_st tl m o size (cap_loop f c size))).
 Proof.
   cbn [loop2 fbody prog_sbdf_calculate_array_capacity].
   induction f as [|f IH]; intros c size Hc Hs Hen; cbn [cap_loop] in *.
@@ -40,16 +42,22 @@ Proof.
     + unfold cap_st. eapply bsE_while_f; [evi; reflexivity|]. cbn [truth b2z]. rewrite E. reflexivity.
 Qed.
 
+Lemma capacity_bs tl m o size c0 : int_min <= size <= 715827882 ->
+  bsE prog_env (fbody prog_sbdf_calculate_array_capacity)
+     {| vars := ("size"%string, VInt size) :: ("cap"%string, c0) :: tl; inb := m; outb := o |}
+     (OReturn (VInt (array_capacity size)) (cap_st tl m o size (array_capacity size))).
+Proof.
+  intros Hs. pose proof (cap_loop_enough size ltac:(lia)) as En. unfold array_capacity in *.
+  pose proof (cap_loop_prog tl m o 64 0 size ltac:(lia) ltac:(lia) En) as L. cbn [loop2 fbody prog_sbdf_calculate_array_capacity] in L.
+  cbn [fbody prog_sbdf_calculate_array_capacity].
+  eapply bsE_seq; [eapply bsE_decl1; [evi; chk7; reflexivity|evi; reflexivity]|].
+  eapply bsE_seq; [exact L|]. eapply bsE_return. unfold cap_st. evi. reflexivity.
+Qed.
+
 Theorem capacity_source size : int_min <= size <= 715827882 ->
   exists f0, forall f, (f0 <= f)%nat -> exists fin,
     callE prog_env f prog_sbdf_calculate_array_capacity [VInt size] [] 0 = OReturn (VInt (array_capacity size)) fin.
 Proof.
-  intros Hs. pose proof (cap_loop_enough size ltac:(lia)) as En. unfold array_capacity in *.
-  pose proof (cap_loop_prog 64 0 size ltac:(lia) ltac:(lia) En) as L. cbn [loop2 fbody prog_sbdf_calculate_array_capacity] in L.
-  assert (B : exists fin, bsE prog_env (fbody prog_sbdf_calculate_array_capacity)
-     {| vars := [("size"%string, VInt size); ("cap"%string, VUndef); (budget_var, VInt 0)]; inb := []; outb := [] |} (OReturn (VInt (cap_loop 64 0 size)) fin)).
-  { eexists. cbn [fbody prog_sbdf_calculate_array_capacity].
-    eapply bsE_seq; [eapply bsE_decl1; [evi; chk7; reflexivity|evi; reflexivity]|].
-    eapply bsE_seq; [exact L|]. eapply bsE_return. unfold cap_st. evi. reflexivity. }
-  destruct B as (fin & B). destruct (bsE_sound _ _ _ _ B) as (f0 & F). exists f0. intros f Hf. exists fin. apply F. exact Hf.
+  intros Hs. destruct (bsE_sound _ _ _ _ (capacity_bs [(budget_var, VInt 0)] [] [] size VUndef Hs)) as (f0 & F).
+  exists f0. intros f Hf. eexists. apply F. exact Hf.
 Qed.
